@@ -9,6 +9,7 @@ import (
 	"path/filepath"
 	"runtime/pprof"
 	"sort"
+	"strings"
 	"syscall"
 	"time"
 
@@ -91,7 +92,20 @@ func cmdWorker(args []string) int {
 	seconds := fs.Int("seconds", 0, "time box; 0 = none")
 	dir := fs.String("dir", ".", "")
 	firstN := fs.Int("firstfps", 0, "record the fingerprints of the first N run indices this worker executes")
+	indicesFlag := fs.String("indices", "", "run exactly these run indices, in this order, in this one process (history replay)")
+	noMin := fs.Bool("nomin", false, "do not minimise a failing plan")
 	fs.Parse(args)
+	var explicit []uint64
+	if *indicesFlag != "" {
+		for _, f := range strings.Split(*indicesFlag, ",") {
+			var v uint64
+			if _, err := fmt.Sscan(f, &v); err != nil {
+				fmt.Fprintln(os.Stderr, "harness: bad -indices")
+				return 3
+			}
+			explicit = append(explicit, v)
+		}
+	}
 
 	info := scen.Get(*scName)
 	if info == nil {
@@ -135,8 +149,13 @@ func cmdWorker(args []string) int {
 		// interleaving + state hashes are reported as counts only
 	}
 
-	for idx := uint64(*worker); ; idx += uint64(*of) {
-		if *runs > 0 && idx >= uint64(*runs) {
+	for pos, idx := 0, uint64(*worker); ; pos, idx = pos+1, idx+uint64(*of) {
+		if explicit != nil {
+			if pos >= len(explicit) {
+				break
+			}
+			idx = explicit[pos]
+		} else if *runs > 0 && idx >= uint64(*runs) {
 			break
 		}
 		if !deadline.IsZero() && (res.Runs&15) == 0 && time.Now().After(deadline) {
@@ -179,8 +198,12 @@ func cmdWorker(args []string) int {
 				o, _ := engine.RunInProcess(sc, p, engine.NewStats(), status, false)
 				return o
 			}
+			box := 20 * time.Second
+			if *noMin {
+				box = 0
+			}
 			status.SetMinimising(true)
-			minPlan, minFail, tried := engine.Minimise(sc, plan, out.Fail, exec, 20*time.Second)
+			minPlan, minFail, tried := engine.Minimise(sc, plan, out.Fail, exec, box)
 			status.SetMinimising(false)
 			mp, _ := json.Marshal(minPlan)
 			res.Failures = append(res.Failures, WorkerFailure{RunIndex: idx, Seed: seed, Fail: minFail, OrigFail: out.Fail, Plan: mp, OrigPlan: orig, ShrinkTried: tried})
